@@ -292,7 +292,11 @@ func (c *compiler) compileType(y *Type, parent Leafable, isUnion bool) error {
 		}
 		// parent is a leaf, so start with parent's parent which is a container-ish
 		resolvedMeta := Find(parent, y.path)
-		if resolvedMeta == nil {
+		if _, inTypedef := parent.(*Typedef); inTypedef && resolvedMeta == nil {
+			// RFC7950 Sec 9.9.2 - the path of a typedef is evaluated at the leaf that
+			// uses the typedef, from here it need not lead anywhere
+			y.delegate = y
+		} else if resolvedMeta == nil {
 			return fmt.Errorf("%s - %s path cannot be resolved", SchemaPath(parent), y.ident)
 		} else if hasType, isLeaf := resolvedMeta.(HasType); !isLeaf {
 			return fmt.Errorf("%s - %s path does not lead to a leaf or leaf-list", SchemaPath(parent), y.ident)
